@@ -435,7 +435,7 @@ def helperLines (s : St) : List BLine :=
   let sah := if sahReq then helper "slice assignment" "_sah"
       [.call "_slg" ["!%1!"], .raw "set \"_i=!_len!\"", .label "_sah_loop", .opn "if !_i! lss %2 (",
        .raw (sliceAssignmentString "!%1!" "!_i!" "%3"), .raw "set /A \"_i=!_i!+1\"", .goto "_sah_loop", .elseOpen,
-       .raw "set /A \"_len=%2+1\"", .call "_sls" ["!%1!", "!_len!"], .close,
+       .opn "if %2 geq !_len! (", .raw "set /A \"_len=%2+1\"", .call "_sls" ["!%1!", "!_len!"], .close, .close,
        .raw (sliceAssignmentString "!%1!" "%2" "!_fa0!")] else []
   let slsReq := s.slsReq || sahReq || s.schReq
   let slgReq := s.slgReq || sahReq || s.schReq
